@@ -13,11 +13,11 @@ import (
 
 func init() {
 	PropertyText["C08"] = [2]string{
-		"Decides: the text recorded/queried in the seen store and the text compared with the store's answer come from the same accessor of the same item (R-SEEN-KEY); the canonical string cannot depend on map iteration order, time or randomness (R-CANON-DETERMINISTIC); an item is marked Seen only on the store's 'found' answer and never on the asset→seed promotion, every other path records the URL, and the hash state is reset between items (R-SEEN-ONLY-IF-FOUND, R-SEEN-HASH-RESET); seencheck and de-duplication run before any request is built and only Fresh items get requests (R-REQUEST-ONLY-AFTER-GATE, R-DELETE-ADVANCE); DedupeItems removes a node only on a map hit for its URL and keeps the survivor in the map (R-DEDUPE-KEEPS-ONE).",
+		"Decides: the text recorded/queried in the seen store and the text compared with the store's answer come from the same accessor of the same item (R-SEEN-KEY); the canonical string cannot depend on map iteration order, time or randomness (R-CANON-DETERMINISTIC); an item is marked Seen only on the store's 'found' answer and never on the asset→seed promotion, every other path records the URL, and the hash state is reset between items (R-SEEN-ONLY-IF-FOUND, R-SEEN-HASH-RESET); seencheck and de-duplication run before any request is built and only Fresh items get requests (R-REQUEST-ONLY-AFTER-GATE, R-DELETE-ADVANCE); DedupeItems removes a node only on a map hit for its URL and keeps the survivor in the map (R-DEDUPE-KEEPS-ONE). A pending duplicate is always dropped in favour of the completed node with the same URL (prefers-completed clause).",
 		"Not decided: atomicity of check-then-record across concurrent preprocess workers (a schedule question); LevelDB / crawl HQ correctness.",
 	}
 	PropertyText["C09"] = [2]string{
-		"Decides the structural part of canonicalisation: no map-order, time or random dependence and no package state in anything reachable from URL.String / URLToString / NormalizeURL (R-CANON-DETERMINISTIC, R-CANON-PURE); query parameters are decoded pair by pair after splitting, in order (R-QUERY-PAIRWISE); every accepted result passed the http(s)/host/fragment checks and scheme-less references are resolved against the parent (R-URL-SHAPE).",
+		"Decides the structural part of canonicalisation: no map-order, time or random dependence and no package state in anything reachable from URL.String / URLToString / NormalizeURL (R-CANON-DETERMINISTIC, R-CANON-PURE); query parameters are decoded pair by pair after splitting, in order (R-QUERY-PAIRWISE); every accepted result passed the http(s)/host/fragment checks and scheme-less references are resolved against the parent (R-URL-SHAPE). URL.Parse always re-derives the parsed form from Raw (R-PARSE-REFRESHES); URL.String is not evaluated before normalisation (R-STRING-AFTER-NORMALIZE); references are resolved against the item's own parent (R-NORMALIZE-PARENT).",
 		"Not decided: idempotence and WHATWG-conformant resolution — properties of the ada parser's output on runtime strings; IDNA mapping.",
 	}
 	register(&core.Rule{ID: "R-SEEN-KEY", Props: []string{"C08"}, Doc: "sibling agreement: the URL text sent to / hashed for the seen store and the text compared with the answer use the same accessor chain of the same item (local: one hash of GetURL().String() used for both isSeen and seen; HQ: request Value vs response comparison)", Run: ruleSeenKey})
